@@ -19,7 +19,7 @@ from ..common import rng_for, b2j
 
 LEVEL = "exploration"
 SHARDS = {"quick": 1, "thorough": 16}
-REQUIRED = ("earlier_packets_rechecked", "sequences_count_mode", "sequences_until_mode", "until_evaluations", "when_false_observed", "when_true_observed",
+REQUIRED = ("serialized_structures_compared", "earlier_packets_rechecked", "sequences_count_mode", "sequences_until_mode", "until_evaluations", "when_false_observed", "when_true_observed",
             "optional_present", "optional_absent", "refs_followed", "selected_field", "selected_packet", "selector_missing_key_errors",
             "continuity_edges", "count_zero_or_negative", "nested_in_sequence", "values_compared_with_model")
 MIN_NONTRIVIAL = 150
@@ -175,10 +175,18 @@ def check_tree(run, bench, nodes, witness, sig):
     return True
 
 
-def check_pack_emits_nothing(run, bench, pkt, witness):
+def check_pack_emits_nothing(run, bench, pkt, witness, mr=None):
     r, roots, _ = bench.traced_pack(pkt)
     if r.status != "ok":
         return
+    if mr is not None and not mr.trace.overlapping():
+        est, er = harness.model_encode(bench.fam, mr.value)
+        if est == "ok":
+            run.count("serialized_structures_compared")
+            if r.pkt != er.data:
+                run.violation("serializing the parsed packet does not emit each present optional / element / referenced packet where declared "
+                              "(and nothing for absent ones)", dict(witness, packed=b2j(r.pkt), reference=b2j(er.data)), None)
+                return
     for n in monitors.walk(roots):
         if n.ftype == "Optional" and not n.children and n.exit != n.enter:
             run.violation("an absent optional field emitted bytes when serialized", dict(witness, field=n.name), None)
@@ -253,7 +261,7 @@ def one_input(run, bench, label, raw):
         if v == "g":
             count_selected(run, fam, mr.value, sig)
             if check_tree(run, bench, roots, witness, sig):
-                check_pack_emits_nothing(run, bench, r.pkt, witness)
+                check_pack_emits_nothing(run, bench, r.pkt, witness, mr)
             nontrivial = bool(sig)
         # packets parsed earlier with this class keep their own referenced / selected sub-packets and lists
         keep = bench.__dict__.setdefault("_earlier_%s" % v, [])
@@ -280,7 +288,7 @@ def run(run):
     rng = rng_for(run.seed, "c08", shard)
     nfam = 520 if run.tier == "quick" else 2200
     ninputs = 12 if run.tier == "quick" else 14
-    profile = {"p_rep": 0.40, "p_opt": 0.22, "p_move": 0.06,
+    profile = {"allow_regex_nokeep_single": False, "p_rep": 0.40, "p_opt": 0.22, "p_move": 0.06,
                "kinds": {"int": 34, "data": 22, "bits": 6, "ref": 20, "sel": 16, "em": 2}}
     if run.tier == "thorough":
         profile["max_depth"] = 4
